@@ -400,6 +400,16 @@ def check_spec(case):
         return out
     if bad:
         viols.append(('spec:%s' % bad[0], '%s: %s' % (tag, bad[1])))
+    # the public helper that determines the first mask frequency, called directly
+    if source in ('zc', 'if', 0.3, 0.12) and case[0] == 'spec' and case[3] % 5 == 0:
+        try:
+            import emd.sift as S_
+            z_ = float(S_.get_mask_freqs(x[:, None].astype(float).copy(), source, imf_opts=(opts or {}).get('imf_opts')))
+            w_ = float(spec_first_freq(x[:, None].astype(float), source, opts))
+            if not (abs(z_ - w_) <= 1e-9 * max(abs(w_), 1e-300) + 1e-12):
+                viols.append(('spec:get_mask_freqs', '%s: get_mask_freqs gives %r, the rule %r' % (tag, z_, w_)))
+        except Exception as e:
+            viols.append(('spec:get_mask_freqs:raise', '%s: get_mask_freqs raised %r' % (tag, e)))
     if len(gfreq) < got.shape[1] or not np.allclose(gfreq[:len(wfreq)], wfreq[:len(gfreq)], rtol=1e-9, atol=1e-12):
         viols.append(('spec:mask-freqs', '%s: returned mask frequencies %s, rule gives %s' % (tag, gfreq.tolist(), wfreq.tolist())))
     n = got.shape[1]
